@@ -1,12 +1,28 @@
-// Package c02: correspondence harness of C02 (stub: replaced when C02 is built).
+// Package c02: derived Equal vs the model of plugin/equal and structural equality.
 package c02
 
 import (
 	"fmt"
+	"strings"
 
+	"verifharness/internal/ga"
 	"verifharness/internal/hx"
 )
 
 func Run(cfg hx.Config) (*hx.Meta, error) {
-	return nil, fmt.Errorf("C02: harness not built yet")
+	vr := &ga.ValueRun{
+		Prop: "C02", Calls: []ga.Call{ga.CallEq, ga.CallEqC}, SupObs: "sup-eq", PoolQuick: 12, PoolThorough: 20, WithMethods: true,
+		Cases: func(idx int, t *ga.Type, vals []*ga.Val, r *hx.Rand, out *strings.Builder) {
+			for xi, x := range vals {
+				for yi, y := range vals {
+					op := "eq"
+					if (xi+yi)%5 == 0 {
+						op = "eqc" // the one-argument curried form
+					}
+					fmt.Fprintf(out, "%s %d %s %s\n", op, idx, x.Sexp(), y.Sexp())
+				}
+			}
+		},
+	}
+	return vr.Run(cfg)
 }
